@@ -61,7 +61,8 @@ def _ops_for(kind, rnd, n):
                             "read:grid_export_limit", "read:eco_mode_3_switch", "read:time", "write:eco_mode_2",
                             "write:eco_mode_4_switch", "write:grid_export_limit", "write:power_factor", "setmode", "setmode",
                             "getmode", "sensor:vpv1", "sensor:ppv", "read:bms2_version", "read:bms2_bat_soc",
-                            "read:battery_capacity", "read:dred", "read:fast_charging", "devgarbage", "devnotset", "excnext"])
+                            "read:battery_capacity", "read:dred", "read:fast_charging", "devgarbage", "devnotset", "excnext",
+                            "read:peak_shaving_mode", "write:peak_shaving_mode", "devpeak", "settings"])
         op = {"c": c}
         if c == "setmode":
             op["mode"] = rnd.choice([0, 1, 2, 3, 98, 99, 98, 99])
@@ -202,8 +203,16 @@ def _refuse(dev, inv, spec):
     table = {}
     for name in dir(type(inv)):
         if name.endswith("__all_settings") or "__settings_" in name:
-            for st in getattr(type(inv), name):
-                table.setdefault(st.id_, st)
+            group = getattr(type(inv), name)
+            if isinstance(group, dict):
+                group = group.values()
+            try:
+                items = list(group)
+            except TypeError:
+                continue
+            for st in items:
+                if hasattr(st, "id_") and hasattr(st, "offset"):
+                    table.setdefault(st.id_, st)
     for sid in spec.get("refuse", ()):
         st = table.get(sid)
         if st is not None:
@@ -282,6 +291,15 @@ def execute(arg):
                     v = await inv.set_operation_mode(gw.OperationMode(op["mode"]), op["p"], op["s"])
                 elif c == "getmode":
                     v = await inv.get_operation_mode()
+                elif c == "devpeak":
+                    # the PEER's peak shaving group changes (another actor): valid contents, different every time
+                    if st["eco"] is not None and st["eco"][2] == 12:
+                        st["npeak"] = st.get("npeak", 0) + 1
+                        k = st["npeak"]
+                        st["eco"][0](47589, bytes([k % 24, (7 * k) % 60, (k + 5) % 24, (11 * k) % 60, 0xFC if k % 2 else 3,
+                                                   (k * 37) % 128]) + (10 * k).to_bytes(2, "big") +
+                                     ((k * 13) % 101).to_bytes(2, "big") + b"\x00\x00")
+                    v = None
                 elif c in ("devgarbage", "devnotset"):
                     # the PEER's eco group 1 changes (another actor): undecodable / the factory 'not set' marker
                     if st["eco"] is not None:
